@@ -889,15 +889,17 @@ ASSUME Mode = "judge" =>
 
 (***************************************************************************)
 (* Step "laws": laws of the definitions (they guard against a wrong spec).  *)
+(* (TLC evaluates every zero-arity definition when it starts, in every      *)
+(* step: each law is guarded by the step.)                                  *)
 (***************************************************************************)
 RECURSIVE SeqsUpTo(_, _)
 SeqsUpTo(A, n) == IF n = 0 THEN {<<>>} ELSE LET r == SeqsUpTo(A, n - 1) IN r \cup {Append(x, a) : x \in {y \in r : Len(y) = n - 1}, a \in A}
-LPats == SeqsUpTo({"a", "b", "*", "?", Sep}, 3)
-LStrs == SeqsUpTo({"a", "b", Sep}, 4)
+LPats == IF Mode # "laws" THEN {} ELSE SeqsUpTo({"a", "b", "*", "?", Sep}, 3)
+LStrs == IF Mode # "laws" THEN {} ELSE SeqsUpTo({"a", "b", Sep}, 4)
 Subst(p, i, x) == SubSeq(p, 1, i - 1) \o x \o SubSeq(p, i + 1, Len(p))
 Ord(v) == IF v = "no" THEN 0 ELSE IF v = "open" THEN 1 ELSE 2
 
-LawGlob ==
+LawGlob == Mode = "laws" =>
   /\ \A p \in LPats : (~HasWild(p)) => \A r \in LStrs : GlobC(p, r) <=> (p = r)                   \* a literal matches itself only
   /\ \A r \in LStrs : GlobC(<<"*">>, r) <=> (\A i \in 1..Len(r) : r[i] # Sep)                     \* `*`: no separator
   /\ \A r \in LStrs : GlobC(<<"*", "*">>, r)                                                      \* `**`: everything
@@ -907,7 +909,7 @@ LawGlob ==
   /\ \A p \in LPats : \A i \in 1..Len(p) : p[i] = "?" => \A r \in LStrs : GlobC(p, r) => GlobC(Subst(p, i, <<"*">>), r)
   /\ \A p \in LPats : \A i \in 1..Len(p) : p[i] = "*" => \A r \in LStrs : GlobC(p, r) => GlobC(Subst(p, i, <<"*", "*">>), r)
 
-LawFile ==
+LawFile == Mode = "laws" =>
   /\ \A f \in UFFiles : FileMatch3(f, f) = "yes" /\ FileMatch3("./" \o f, f) = "yes"
   /\ \A p \in UFilePats \ {""} : \A f \in UFFiles : Glob(p, f) => FileMatch3(p, f) = "yes"
   \* the examples of the manual
@@ -918,14 +920,14 @@ LawFile ==
   /\ FileMatch3("src/file1.cpp", "src/file1.cpp") = "yes"
   /\ FileMatch3("h.h", "inc/h.h") = "open" /\ FileMatch3("*.h", "inc/h.h") = "open" /\ FileMatch3("in", "inc/h.h") = "no"
 
-LawParse ==
+LawParse == Mode = "laws" =>
   /\ ParseText("memleak:src/file1.cpp") = [id |-> "memleak", file |-> "src/file1.cpp", line |-> 0]
   /\ ParseText("uninitvar // suppress all uninitvar errors in all files") = [id |-> "uninitvar", file |-> "", line |-> 0]
   /\ ParseText("uninitvar:src/file1.c:10") = [id |-> "uninitvar", file |-> "src/file1.c", line |-> 10]
   /\ ParseText("a*:b/**.c:7 # x:y:3") = [id |-> "a*", file |-> "b/**.c", line |-> 7]
 
 \* the forms are placed where the manual's attachment rules put them
-LawForms ==
+LawForms == Mode = "laws" =>
   \A s \in Forms :
     /\ (s.k = "std" /\ s.at # NoAt /\ s.line # 0) =>
           (s.file = s.at.file /\ IF s.at.pos = "tail" THEN s.at.line = s.line /\ HasCode(s.file, s.line)
@@ -938,21 +940,21 @@ LawForms ==
     /\ s.k = "two" => (Skel(s.file)[s.line].text = "{" /\ HasCode(s.file, s.line + 1))
 
 \* every surface form of a form means the form, in every syntax variant
-LawSurface ==
+LawSurface == Mode = "laws" =>
   \A s \in Forms : \A v \in 0..MaxVar : \A d \in Surfaces(s) :
      LET r == Run(<<s>>, d, v) IN s.k \in {"beg", "end"} \/ RunMeanings(r) = {Meaning(s)}
 
 \* more suppressions never show more; `*` as id matches whatever the literal id matches
 Balanced == {s \in Forms : s.k \notin {"beg", "end"}}
-LawMono ==
+LawMono == Mode = "laws" =>
   \A s, t \in Balanced :
      /\ MustHide(Palette, {s}) \subseteq MustHide(Palette, {s, t})
      /\ MustReport(Palette, {s, t}) \subseteq MustReport(Palette, {s})
      /\ MustReport(Palette, {s, t}) = MustReport(Palette, {s}) \cap MustReport(Palette, {t})
-LawStar ==
+LawStar == Mode = "laws" =>
   \A s \in Forms : \A f \in Palette : Ord(Match3([s EXCEPT !.id = "*"], f, {})) >= Ord(Match3(s, f, {}))
 \* every palette finding can be told apart by some form, and is hidden by some and kept by some
-LawPalette ==
+LawPalette == Mode = "laws" =>
   /\ \A f \in Palette : (\E s \in Forms : M3(s.n, f, {}) = "yes") /\ (\E s \in Forms : M3(s.n, f, {}) = "no")
   /\ \A f, g \in Palette : f # g => Key(f) # Key(g)
 
